@@ -69,11 +69,15 @@ impl Wake for CommandWaker {
         // nothing to do.
         // TODO: Does that mean we should bail, since waking ourselves is
         // now pointless?
+        verif_point!("cmd.wake.before_send");
         let _ = self.ready_queue.send(self.task_id);
+        verif_point!("cmd.wake.after_send");
         self.woken.store(true, Ordering::Release);
+        verif_point!("cmd.wake.after_store");
 
         // Note: calling `wake` before `register` is a no-op
         self.parent_waker.wake();
+        verif_point!("cmd.wake.after_parent");
     }
 }
 
@@ -156,6 +160,7 @@ impl<Effect, Event> Command<Effect, Event> {
         }
 
         loop {
+            verif_point!("cmd.settle_loop");
             self.spawn_new_tasks();
 
             if self.ready_queue.is_empty() {
@@ -208,12 +213,15 @@ impl<Effect, Event> Command<Effect, Event> {
         let waker = arc_waker.clone().into();
         let context = &mut Context::from_waker(&waker);
 
+        verif_point!("cmd.before_poll");
         let result = match task.future.as_mut().poll(context) {
             Poll::Pending => TaskState::Suspended,
             Poll::Ready(_) => TaskState::Completed,
         };
+        verif_point!("cmd.after_poll");
 
         drop(waker);
+        verif_point!("cmd.after_drop_waker");
 
         // If the task is pending, but there's only one copy of the waker - our one -
         // it can never be woken up again so we most likely need to evict it.
@@ -225,6 +233,7 @@ impl<Effect, Event> Command<Effect, Event> {
         // Read the count first: a waker which is used and then dropped on another thread sets
         // `woken` before its count goes down, so seeing the lower count guarantees seeing the flag
         let no_other_wakers = Arc::strong_count(&arc_waker) < 2;
+        verif_point!("cmd.evict_between_reads");
         std::sync::atomic::fence(Ordering::Acquire);
         let task_is_ready = arc_waker.woken.load(Ordering::Acquire);
         if result == TaskState::Suspended && !task_is_ready && no_other_wakers {
